@@ -38,6 +38,9 @@ CHECKS = {
     "C12": ("exploration", "runtime monitoring: every utility codec/container in the anchors driven under gcc and clang ASan+UBSan on exact-size heap inputs and outputs whose capacity sweeps 0..required+1 (also between canary frames), reported required sizes passed back, per-case CPU-time alarm",
             "Held on the cases explored: 118 functions (Base64, hex, num/str, UTF-8, ASN.1, bencode, XML extraction, INI, argument splitting, line iteration, mem_* helpers, CRC) with 18 structure-aware generator families plus mutations (truncation at every byte, delimiter as last byte, lengths beyond the buffer, closing tag first, 2^64 length wrap); a sanitizer bounds report, a canary change, a reported size that is not sufficient, or a CPU-time alarm is a violation; the run is inconclusive if any anchored function was never executed or a monitor fails to fire on a deliberate driver fault.",
             "trusted: ASan red zones + canaries (non-adjacent and intra-object overflows can escape); functions are called within documented preconditions; returned spans that leave the input are observations (C13 clause)", "DESIGN.md 4 C12"),
+    "C13": ("exploration", "runtime monitoring: every network parser/validator in the anchors executed under gcc and clang ASan+UBSan on exact-size heap copies of generated, mutated, random and (thorough) libFuzzer-found packets; size-less accessors only in the library's own consumer call sequences on validator-accepted packets; driver checks every returned pointer/offset/length against the input span; per-case CPU alarm",
+            "Held on the packets explored: structure-aware generators for DNS (compression pointers incl. loops/self/forward, EDNS), RADIUS, DHCPv4 header, HTTP request/status lines, headers, queries, chunked bodies, URL escapes, SDP, SAP, RTP, MPEG-TS plus every single-field mutation the property lists (truncation at every byte, lengths remaining+-1/0/max, counts != content, delimiter as last byte, numeric extremes); a sanitizer report, a returned span outside the message, or a CPU alarm is a violation; the run is inconclusive if a validator never accepts or never rejects or a consumer-mode accessor is never reached.",
+            "trusted: ASan red zones; the consumer call sequences were taken from dns_resolv.c, radius_client.c, http_server.c, sap_rcvr.c; DHCPv4 has no option walker in the library (header check only)", "DESIGN.md 4 C13"),
     "C14": ("exploration", "runtime monitoring: encoders/decoders executed in asu and plain -O0/-O2/-O3 gcc/clang builds, every output compared with Python references (base64, binascii, int/str, urllib.parse, five-entity XML escape, bitwise Rocksoft CRC model)",
             "Held on the cases explored: Base64 lengths 0..64 + random to 4 KiB incl. tolerant decoding with interleaved non-alphabet bytes; hex both cases; all 20 number formatters (u8/s8 exhaustive, every 10^k and 10^k+-1, minima/maxima, random) with reported length and round trip through the parsers; XML entity encode/decode; URL unescape of quote/quote_plus; eight CRC variants over lengths 0..300+ with chained updates and the 123456789 check values.",
             "trusted: Python stdlib references and oracles/crc.py (catalogue check values in setup)", "DESIGN.md 4 C14"),
